@@ -167,7 +167,13 @@ def actual(t):
 
 
 def describe(m, t):
-    return [(sid, concretize_value(m, o), concretize_value(m, c)) for sid, o, c in actual(t)]
+    return describe_actual(m, actual(t))
+
+
+def describe_actual(m, act):
+    """description from a snapshot taken by actual() (use the one taken *before* the code under test ran: a tree the
+    code mutated would otherwise be described in its mutated form and the replay would start from the wrong tree)"""
+    return [(sid, concretize_value(m, o), concretize_value(m, c)) for sid, o, c in act]
 
 
 def rebuild(desc):
